@@ -8,7 +8,7 @@ CASTS = ("CStyleCastExpr", "CXXStaticCastExpr", "CXXFunctionalCastExpr", "CXXCon
          "CXXReinterpretCastExpr", "CXXDynamicCastExpr")
 
 
-def render(P, n, depth=0):
+def render(P, n, depth=0, nocast=False):
     """C-like rendering of an expression tree (for messages and structural comparison)"""
     if n is None:
         return ""
@@ -16,7 +16,9 @@ def render(P, n, depth=0):
         return "…"
     k = n.get("k")
     c = n.get("c") or []
-    r = lambda x: render(P, x, depth + 1)
+    r = lambda x: render(P, x, depth + 1, nocast)
+    if nocast and k in CASTS:
+        return r(c[0])
     if k == "DeclRefExpr":
         return n.get("n", "?")
     if k == "MemberExpr":
